@@ -224,6 +224,14 @@ pub fn verif_prefix_range_asc<A: KeyEnc, B: KeyEnc, T>(m: &Map<(A, B, u64), T>, 
         let all = prefix_entries_u64::<T>(s.kv@, m.ns as int, enc_pair(p.0.key_bytes(), p.1.key_bytes()));
         r->Ok_0@ =~= all.take(if all.len() <= limit { all.len() as int } else { limit as int })
     }) { unimplemented!() }
+/// D10 target, one-component prefix: `MAP.prefix(a).range(store, None, None, Order::Ascending).take(limit).collect::<StdResult<Vec<(u64, T)>>>()`
+/// over a map keyed `(A, u64)` (same ASSUMED prefix-iteration model: the entries under the prefix in ascending order of the u64 component)
+#[verifier::external_body]
+pub fn verif_prefix1_range_asc_u64<A: KeyEnc, T>(m: &Map<(A, u64), T>, s: &Storage, p: A, limit: usize) -> (r: Result<Vec<(u64, T)>, StdError>)
+    ensures r is Ok ==> ({
+        let all = prefix_entries_u64::<T>(s.kv@, m.ns as int, p.key_bytes());
+        r->Ok_0@ =~= all.take(if all.len() <= limit { all.len() as int } else { limit as int })
+    }) { unimplemented!() }
 // cw2: contract version item (namespace "contract_info"; id = the extractor's R5 hash of that literal)
 pub spec const CW2_NS: int = 246209684066071int;
 pub uninterp spec fn cw2_bytes(name: Seq<char>, version: Seq<char>) -> Seq<u8>;
